@@ -53,11 +53,13 @@ func loadDefaultErrPage() string {
 // names for the custom error page, including ones whose last characters also occur in the extension
 var errPageNames = []string{"errors/500", "errors/default", "about", "fail", "errors/html", "oops.page"}
 
-var failingStmts = []string{"{{ 1 / z0 }}", "{{ undefinedAtFailurePoint }}", `{{ 7 + "seven" }}`, `{{ 7 % "x" }}`}
+var failingStmts = []string{"{{ 1 / z0 }}", "{{ undefinedAtFailurePoint }}", `{{ 7 + "seven" }}`, `{{ 7 % "x" }}`,
+	// the failing expression is a LATER element of a list / a later argument of a call
+	"{{ [1, 2, undefinedInList] }}", `{{ [7, 8].join("-", undefinedLaterArg) }}`, `{{ x9 = [true, 1 / z0] }}`}
 
 type c17Cell struct {
 	Page   string `json:"page"`
-	FP     int    `json:"fp"`   // -1 no failure, -2 template does not exist, -3 unconvertible data, -4 the custom error page itself requested with unconvertible data
+	FP     int    `json:"fp"`   // -1 no failure, -2 template does not exist, -3 unconvertible data, -4 the custom error page itself requested with unconvertible data, -5 a page that assigns variables and fails, rendered without data, -6 a page that succeeds and shows text looking like an error
 	Kind   int    `json:"kind"` // failing statement kind
 	Debug  bool   `json:"debug"`
 	Custom string `json:"custom"` // "" valid failing missing
@@ -73,6 +75,10 @@ func (c c17Cell) class() string {
 		out = "baddata"
 	} else if c.FP == -4 {
 		out = "errorpage-itself"
+	} else if c.FP == -5 {
+		out = "fail-nodata"
+	} else if c.FP == -6 {
+		out = "ok-errortext"
 	}
 	cu := c.Custom
 	if cu == "" {
@@ -119,13 +125,31 @@ func buildC17(t *Tree, cell c17Cell) *Scenario {
 	if cell.FP == -4 && cfg.ErrPage != "" {
 		name = cfg.ErrPage
 	}
+	sentinel := t.Sent[cell.Page]
+	if cell.FP == -5 {
+		// no data at all; the page assigns the names the custom error page assigns too, with other types
+		name, data, sentinel = "nodata", nil, "ND"
+		sc.Files = append(sc.Files, File{Path: t.path("nodata"), Role: "page",
+			Data: "{{ status = 200 }}{{ n1 = 3 }}{{ s0 = [1] }}<p>ND_1</p>" + failingStmts[cell.Kind%len(failingStmts)] + "<p>ND_2</p>"})
+	}
+	if cell.FP == -6 {
+		// a page that renders fine and legitimately shows text that looks like an error report
+		name, sentinel = "errtext", "ET"
+		sc.Files = append(sc.Files, File{Path: t.path("errtext"), Role: "page",
+			Data: "<h1>ET_1 log</h1><pre>[Textwire ERROR:3]: /var/log/app/x.tw: variable 'y' is not defined</pre><p>{{ lastError }}</p><p>Oops! Sorry! ET_2</p>"})
+		data = &Val{T: "map", K: []string{"lastError"}, V: []Val{VStr("[Textwire ERROR:12]: /var/www/tpl/home.tw: division by zero")}}
+	}
+	if cell.FP >= -2 && cell.Kind%2 == 1 && data != nil {
+		// data that renders fine but that encoders (JSON, ...) reject
+		data = &Val{T: "map", K: append(append([]string{}, data.K...), "zznan", "zzinf"), V: append(append([]Val{}, data.V...), Val{T: "nan"}, VMap([]string{"deep"}, []Val{{T: "inf"}}))}
+	}
 	sc.Ops = []Op{
 		{Kind: "string", Name: name, Data: data},
 		{Kind: "response", Name: name, Data: data},
 		{Kind: "response", Name: name, Data: data, W: &WriterFault{FailAt: 1}},
 		{Kind: "response", Name: name, Data: data, W: &WriterFault{FailAt: 1, Short: true}},
 	}
-	sc.Extra = map[string]any{"cell": cell.class(), "sentinel": t.Sent[cell.Page], "tpldir": t.Cwd + "/" + strings.Trim(t.Cfg.Dir, "/")}
+	sc.Extra = map[string]any{"cell": cell.class(), "sentinel": sentinel, "tpldir": t.Cwd + "/" + strings.Trim(t.Cfg.Dir, "/")}
 	return sc
 }
 
@@ -157,6 +181,15 @@ func checkC17(sc *Scenario, acc *Acc) (*c17Fail, bool, bool) {
 func checkC17Cfg(sc *Scenario, acc *Acc, cfgOverride *Cfg) (*c17Fail, bool, bool) {
 	var w *World
 	var ok bool
+	// "a working custom error page": the configured page rendered alone, first, in a fresh state —
+	// not after the failing render, whose leftovers must not decide whether the page "works"
+	var cpRef *Obs
+	if c := sc.Setup[0].Cfg; c != nil && c.ErrPage != "" {
+		if fw, fok := setupWorld(sc); fok {
+			o := fw.RunOp(Op{Kind: "string", Name: c.ErrPage, Data: nil}, Budget)
+			cpRef = &o
+		}
+	}
 	if len(sc.Prior) > 0 {
 		// chained: earlier cells (other failure points, other debug mode) ran in this
 		// process before; nothing is reset in between
@@ -244,8 +277,26 @@ func checkC17Cfg(sc *Scenario, acc *Acc, cfgOverride *Cfg) (*c17Fail, bool, bool
 			return o.Out, o.Kind == "ok"
 		}
 		bi, biok := builtin(cfg.Debug)
+		staticHead := ""
 		if !biok {
-			return nil, false, true
+			// The repository's built-in page no longer renders from {path, line, message, debugMode}
+			// alone (it was given more variables). The equality clause cannot be applied; what remains
+			// is structural: the body must begin with the page's static head (the source up to its
+			// first directive), and every other clause stays in force.
+			src := loadDefaultErrPage()
+			cut := len(src)
+			for _, m := range []string{"{{", "@if", "@each", "@for", "@component", "@dump"} {
+				if i := strings.Index(src, m); i >= 0 && i < cut {
+					cut = i
+				}
+			}
+			staticHead = src[:cut]
+			if len(strings.TrimSpace(staticHead)) < 16 {
+				return nil, false, true
+			}
+			if acc != nil {
+				acc.Probe("builtin-page-reference-unavailable-structural-clause-used", 1)
+			}
 		}
 		// a repair that HTML-escapes the values it puts into the built-in page is still the built-in page
 		biEsc := ""
@@ -253,10 +304,18 @@ func checkC17Cfg(sc *Scenario, acc *Acc, cfgOverride *Cfg) (*c17Fail, bool, bool
 			V: []Val{VStr(html.EscapeString(str.Path)), {T: "int64", I: int64(str.Line)}, VStr(html.EscapeString(str.Msg)), VBool(cfg.Debug)}}}, Budget); o.Kind == "ok" {
 			biEsc = o.Out
 		}
-		isBuiltin := func(body string) bool { return body == bi || (biEsc != "" && body == biEsc) }
+		isBuiltin := func(body string) bool {
+			if staticHead != "" {
+				return strings.HasPrefix(body, staticHead)
+			}
+			return body == bi || (biEsc != "" && body == biEsc)
+		}
 		switch {
 		case cfg.ErrPage != "" && !cfg.Debug:
 			cp := w.RunOp(Op{Kind: "string", Name: cfg.ErrPage, Data: nil}, Budget)
+			if cpRef != nil && cfgOverride == nil {
+				cp = *cpRef
+			}
 			if cp.Kind == "ok" {
 				if resp.Body != cp.Out {
 					return &c17Fail{"a working custom error page is configured and debug is off, but the body is not that page", "body-not-custom-page", short(cp.Out), short(resp.Body)}, false, false
@@ -337,7 +396,7 @@ func (p c17) Run(seed uint64, run int, tier string, acc *Acc) *Violation {
 	var first *Violation
 	seen := map[string]bool{}
 	cells := 0
-	for fp := -4; fp < nfp; fp++ {
+	for fp := -6; fp < nfp; fp++ {
 		kind := r.Intn(len(failingStmts))
 		for _, debug := range []bool{false, true} {
 			for _, custom := range []string{"", "valid", "failing", "missing"} {
@@ -432,7 +491,7 @@ func (p c17) Run(seed uint64, run int, tier string, acc *Acc) *Violation {
 	for _, custom := range []string{"", "valid", "failing", "missing"} {
 		var chain []*Scenario
 		n := 0
-		for fp := nfp - 1; fp >= -4; fp-- {
+		for fp := nfp - 1; fp >= -6; fp-- {
 			for _, debug := range []bool{true, false} {
 				n++
 				if n > 10 {
